@@ -70,6 +70,8 @@ def rule_tie_and_onset(ctx):
 
 
 def run(ctx):
+    from ..rules import round5 as _R5
+    _R5.rule_common_divisions_lcm(ctx)
     from ..rules import extra as _X4
     _X4.rule_multiple_divisions_refused(ctx)
     from ..rules import extra as _X3
